@@ -236,7 +236,7 @@ class Pool():
         if self._map_guard:
             raise RuntimeError('recursive map!')
         if not set(self._get_all_workers_ids()).difference(self._closed): # no workers
-            return
+            raise PoolError('Pool failed to process the whole input - all workers have died', partial_results=([] if return_results else None))
 
         try:
             self._map_guard = True
